@@ -233,6 +233,74 @@ def run_wrappers(res, layouts, rng, tier):
 
 
 
+def run_orders_and_views(res, rng):
+    """(a) grade selection and the grade-dependent methods in jitted code on layouts whose blade order does NOT keep a grade's blades
+    next to each other (bitmap order: grades 0,1,1,2,1,2,2,3); (b) a history on ONE multivector object: passed to jitted code with
+    contiguous coefficients, `.value` re-pointed to a strided view of the same dtype, passed again (numba must re-type it)."""
+    import numpy as np
+    from harness import real
+    W = make_wrappers()
+    names = ['call_lit1', 'call_lit02', 'call_rt', 'call_rt2', 'call_mixed', 'gradeInvol', 'even', 'invert', 'add', 'mul']
+    for lname, L in (('bitmap3', real.make_layout([1, 1, -1], order=list(range(8)))), ('bitmap4', real.make_layout([1, -1, 1, 0], order=list(range(16))))):
+        n, N = L.dims, L.gaDims
+        site0 = dict(layout=lname, sig=[int(x) for x in L.sig], order='bitmap')
+        for dt in (np.int64, np.float64):
+            for name in names:
+                jf, kind = W[name]
+                for r in range(2):
+                    A = L.MultiVector(rng.integers(-9, 10, size=N).astype(dt))
+                    B = L.MultiVector(rng.integers(-9, 10, size=N).astype(dt))
+                    if kind == 'u':
+                        args = (A,)
+                    elif kind == 'b':
+                        args = (A, B)
+                    elif kind == 'g':
+                        args = (A, int(rng.integers(0, n + 1)))
+                    else:
+                        g = int(rng.integers(0, n + 1))
+                        h = int(rng.integers(0, n + 1))
+                        if h == g:
+                            h = (g + 1) % (n + 1)       # (the repeated grade is the recorded finding, exercised in run_wrappers)
+                        args = (A, g, h)
+                    if name == 'call_mixed' and args[1] == 1:
+                        args = (A, 2)
+                    site = dict(site0, op=name, dtype=np.dtype(dt).name)
+                    res.case(('orders', lname, name, np.dtype(dt).name, A.value.tolist(), [a for a in args[1:] if isinstance(a, int)]), nontrivial=True)
+                    res.count('orders_' + name)
+                    rp, rj = jf.py_func(*args), jf(*args)
+                    ok, why = same_result(rj, rp, exact=True)
+                    if not ok:
+                        res.violate(f'jitted `{name}` differs from the interpreter on a layout whose grades are not stored contiguously ({why})',
+                                    dict(site, A=A.value.tolist(), args=[a for a in args[1:] if isinstance(a, int)]), str(getattr(rj, 'value', rj))[:300],
+                                    str(getattr(rp, 'value', rp))[:300], dict(site, kind=why))
+    # (b) the re-typed operand
+    L = real.make_layout([1, 1, 1])
+    N = L.gaDims
+    for dt in (np.int64, np.float64):
+        for name in ('add', 'gradeInvol', 'call_lit1', 'mul', 'neg'):
+            jf, kind = W[name]
+            table = rng.integers(-9, 10, size=(N, 3)).astype(dt)
+            x = L.MultiVector(rng.integers(-9, 10, size=N).astype(dt))
+            y = L.MultiVector(rng.integers(-9, 10, size=N).astype(dt))
+            site = dict(layout='Cl(3)', op=name, dtype=np.dtype(dt).name, history='contiguous, then x.value = table[:, 1] (strided view), same object')
+            res.case(('views', name, np.dtype(dt).name, table.tolist(), x.value.tolist()), nontrivial=True)
+            res.count('views_' + name)
+            args1 = (x,) if kind == 'u' else (x, y)
+            r1j, r1p = jf(*args1), jf.py_func(*args1)
+            x.value = table[:, 1]
+            for view_name, setter in (('column', lambda: table[:, 1]), ('reversed', lambda: np.ascontiguousarray(table[:, 2])[::-1]), ('contiguous-again', lambda: table[:, 0].copy())):
+                x.value = setter()
+                want = x.value.copy()
+                r2j, r2p = jf(*args1), jf.py_func(*args1)
+                ok1, _ = same_result(r1j, r1p, exact=True)
+                ok2, why = same_result(r2j, r2p, exact=True)
+                if not (ok1 and ok2 and np.array_equal(x.value, want)):
+                    res.violate(f'jitted `{name}` on a multivector whose coefficient array was re-pointed to a {view_name} view reads other coefficients than the interpreter',
+                                dict(site, view=view_name, coefficients=want.tolist()), str(getattr(r2j, 'value', r2j))[:300], str(getattr(r2p, 'value', r2p))[:300],
+                                dict(site, kind=why, view=view_name))
+                    break
+
+
 def run_power_sweep(res, layouts, rng):
     """jitted `a ** k` for every exponent 0..16 (all bit patterns of the exponent up to five bits) on tiny operands (two
     non-zero coefficients in {-1, 1}: every power stays far inside int64 and the exact range of binary64)"""
@@ -436,6 +504,8 @@ def run_job(job, tier, seed):
             run_power_sweep(res, layouts, rng)
         with common.guard(res, 'twin layouts', {}):
             run_twin_layouts(res, rng)
+        with common.guard(res, 'blade orders / re-pointed coefficient arrays', {}):
+            run_orders_and_views(res, rng)
     elif job == 'configs':
         run_configs(res, seed)
     else:
